@@ -237,6 +237,8 @@ class CounterToken(Token, FileSystemEventHandler):
 
             self.timestamp = os.path.getmtime(self.path)
             self._update()
+            if _verif.ACTIVE:
+                _verif.emit("tok.init", available=self.available)
 
         # Watched path
         self.watchedpath = str(path.absolute())
